@@ -85,6 +85,7 @@ Inductive tev :=
 | TConnToken (c : conn) (tok : nat)                  (* a token event for the connection reached the gateway *)
 | TTokenTask (c : conn) (tok : nat) (tid : nat)      (* the connection's worker starts the task that processes that token event (tid 0 = none) *)
 | TReaccessDeferred (c : conn) (r : rid)             (* site mark: the gateway deferred a re-access trigger for c's subscription on r *)
+| TLegacy (c : conn)                                 (* the connection negotiated (or defaulted to) a protocol version before 1.2.1 *)
 | TThrottle (n : nat)                                (* the gateway under test runs with resetThrottle = referenceThrottle = n *)
 | TTokenResetEv (tids : list nat)                    (* a system.tokenReset event naming these token ids reached the gateway *)
 | TSysReset (res acc : list rid)                     (* system.reset reached the gateway; the known resources matching its patterns *)
